@@ -13,6 +13,7 @@ import (
 
 	"github.com/thushan/olla/internal/adapter/metrics"
 	"github.com/thushan/olla/internal/adapter/registry/profile"
+	"github.com/thushan/olla/internal/adapter/unifier"
 	"github.com/thushan/olla/internal/adapter/translator/anthropic"
 	"github.com/thushan/olla/internal/config"
 	"github.com/thushan/olla/internal/core/domain"
@@ -30,6 +31,10 @@ func FuzzC20(f *testing.F) {
 	world.Quiet() // changes into the repository (the profile loader reads ./config/profiles)
 	for i, s := range listingSeeds {
 		f.Add(uint8(0+4*i), []byte(s))
+	}
+	seedRng := rand.New(rand.NewSource(1))
+	for i := 0; i < 64; i++ { // structure-generated listings as seeds too
+		f.Add(uint8(4*i), genListing(seedRng))
 	}
 	for i, s := range metricsSeeds {
 		f.Add(uint8(1+4*i), []byte(s))
@@ -58,6 +63,7 @@ func FuzzC20(f *testing.F) {
 	for _, p := range profiles {
 		_ = ext.ValidateProfile(p)
 	}
+	uni := unifier.NewDefaultUnifier()
 	tr := anthropic.NewTranslator(world.Logger(), config.AnthropicTranslatorConfig{Enabled: true, MaxMessageSize: 10 << 20})
 	ctx := context.Background()
 	origReq, _ := http.NewRequest("POST", "http://x/olla/anthropic/v1/messages", nil)
@@ -84,6 +90,8 @@ func FuzzC20(f *testing.F) {
 					t.Fatalf("C20/listing/nameless-entry/%s: parser returned a model without a name", p.GetName())
 				}
 			}
+			// what discovery does next with a parsed listing
+			_, _ = uni.UnifyModels(ctx, ms, &domain.Endpoint{Name: "fz", URLString: "http://10.20.0.9:11434", Type: p.GetName()})
 		case 1:
 			pn := names[which%len(names)]
 			for _, m := range []*domain.ProviderMetrics{ext.ExtractFromChunk(ctx, in, pn), ext.ExtractMetrics(ctx, in, http.Header{"X-Test": {"1"}}, pn)} {
